@@ -213,7 +213,7 @@ func c18GenCase(h *H) *c18Case {
 	if c.del {
 		c.lbl("delete")
 	}
-	c.ow = []string{"always", "always", "always", "if-changed", "if-newer", "never"}[h.Intn(6)]
+	c.ow = []string{"always", "always", "always", "if-changed", "never", "never"}[h.Intn(6)] // if-newer depends on mtimes, which the name-space model does not track (C19 covers it)
 	c.lbl("ow-" + c.ow)
 	return c
 }
